@@ -9,7 +9,13 @@ _Bool wf_board_at(const struct Position *p, uint32_t s);
 _Bool wf_board(const struct Position *p);
 uint64_t wf_bb(const struct Position *p, uint32_t pc);
 _Bool wf_row(const struct Position *p, uint32_t pc);
+_Bool wf_row_at(const struct Position *p, uint32_t pc, uint32_t sq, int i, int j);
 _Bool wf_lists(const struct Position *p);
 _Bool wf_state(const struct Position *p);
 _Bool wf_pos(const struct Position *p);
+struct HashKey;
+extern uint32_t G_HPC, G_HSQ, G_HR, G_HF;   /* ghost cell / rights value / e.p. file of the indicator tables (C04) */
+_Bool hash_ok_for(const struct HashKey *k, const struct Position *p);
+_Bool hash_ok(const struct Position *p);
+void hash_indicator_tables(void);
 #endif
